@@ -610,6 +610,34 @@ impl Property for C06 {
                 }
             }
         }
+        // a refusal for quota that its caller sees late: the refused publish is polled again only
+        // after the window has reopened and a later publish has been accepted
+        for r in [2u16, 3] {
+            for kinds in 0u8..8 {
+                k += 1;
+                if k % workers != worker {
+                    continue;
+                }
+                let kind = |bit: u8| if kinds & bit != 0 { OpKind::Pub2 } else { OpKind::Pub1 };
+                let start = |kind| Ev::Start { h: 0, kind, settle: false, solo: false };
+                let mut events = vec![];
+                for _ in 0..r {
+                    events.push(start(OpKind::Pub1));
+                }
+                events.push(Ev::Settle);
+                events.extend([start(kind(1)), Ev::PollOp { sel: 65535 }, Ev::PollCtx]); // refused, unseen
+                for _ in 0..r {
+                    events.extend([Ev::In(Inbound::Ack { sel: 0, deco: d }), Ev::PollCtx]);
+                }
+                events.extend([start(kind(2)), Ev::PollOp { sel: 65535 }, Ev::PollCtx]); // accepted
+                events.push(Ev::Sweep); // the refusal is seen now
+                events.extend([start(kind(4)), Ev::Settle]);
+                for _ in 0..8 {
+                    events.extend([Ev::In(Inbound::Ack { sel: 65535, deco: d }), Ev::Settle]);
+                }
+                v.push(Scenario { receive_max: Some(r), max_packet_size: None, id_offset: 0, prologue: 0, events });
+            }
+        }
         Box::new(v.into_iter())
     }
 
